@@ -11,6 +11,7 @@ concrete reachable state (`…_counterexample`, replayed on the real scheduler: 
 the exact form the code implements (`restart_outputs`, `restart_held`).
 -/
 import CylcModel.SchedLemmasC19
+import CylcModel.SchedLemmasC19B
 namespace CylcModel.C19
 open CylcModel.Sched2
 
@@ -373,6 +374,58 @@ example :
   · intro hp hh
     have : hp = 1 := by rw [h1] at hh; exact (Option.some.inj hh).symm
     subst this; decide
+
+/-! ### broadcasts (`Sched2B` = `Sched2` + the broadcast store and its `broadcast_states` queue) -/
+
+/-- The scheduler side of a `Sched2B` run is a `Sched2` run (of the same ops, a broadcast request counting as a
+`release` of nothing): every theorem above applies to the runs with broadcasts. -/
+theorem with_broadcasts_is_sched2 (cfg : Sched2B.Cfg) (g : Graph) (ops : List Sched2B.Op) :
+    (Sched2B.run cfg g ops).map (·.s) = run g (ops.map Sched2B.proj) :=
+  Sched2B.run_proj cfg g ops
+
+/-- **Broadcasts restored**: in every state of every run — any interleaving of broadcast set / clear / expire
+requests (any points, namespaces, keys, several between two database writes), main loops with their automatic
+expiry and database write, commands and earlier restarts — a stop + restart rebuilds from the `broadcast_states`
+table a store with the same value (or absence) for every (point, namespace, key), without duplicate entries.
+Hypothesis (`SafeOps`, checked by the driver on every case): key paths representable in the `key` column. -/
+theorem restart_broadcasts (cfg : Sched2B.Cfg) (g : Graph) (ops : List Sched2B.Op) (hsafe : Sched2B.SafeOps ops) :
+    ∀ y ∈ Sched2B.run cfg g ops,
+      (∀ k, Bcast.lookup (Sched2B.step cfg g y (.sched .restart)).b.store k = Bcast.lookup y.b.store k) ∧
+      Bcast.NodupKeys (Sched2B.step cfg g y (.sched .restart)).b.store ∧ Bcast.NodupKeys y.b.store := by
+  intro y hy
+  have hp := Sched2B.persist_run cfg g ops hsafe y hy
+  have hr := Bcast.persist_restart y.b.store y.b.db hp
+  exact ⟨hr.2, hr.1.storeNodup, hp.storeNodup⟩
+
+/-- in every state of every run the table, once its pending deletes and inserts are written, holds the store item
+by item — in particular a broadcast set in the same main-loop iteration in which another one sharing its point,
+namespace or key is cleared or expires is not lost -/
+theorem broadcast_table_holds_store (cfg : Sched2B.Cfg) (g : Graph) (ops : List Sched2B.Op)
+    (hsafe : Sched2B.SafeOps ops) :
+    ∀ y ∈ Sched2B.run cfg g ops, ∀ k, Bcast.SafeKey k →
+      Bcast.lookup y.b.db.flush.rows (Bcast.renderK k) = Bcast.lookup y.b.store k := by
+  intro y hy k hk
+  rw [Bcast.lookup_flush]
+  exact (Sched2B.persist_run cfg g ops hsafe y hy).view k hk
+
+/-- a run with broadcasts: FOO is set for cycle 1, written by a main loop; then FOO is set for cycle 2 and the
+cycle-1 broadcast is cleared with no main loop in between (the two share namespace and key); stop --now, restart -/
+def exBcastOps : List Sched2B.Op :=
+  [.bcast (.put ["1"] ["a"] [[(["environment", "FOO"], "for-1")]]), .sched .loop,
+   .bcast (.put ["2"] ["a"] [[(["environment", "FOO"], "for-2")]]),
+   .bcast (.clear ⟨["1"], [], []⟩),
+   .sched (.stop "REQUEST(NOW)"), .sched .loop]
+
+def exBcastCfg : Sched2B.Cfg := { known := ["a", "root"], longest := 1 }
+
+example : Sched2B.SafeOps exBcastOps := by decide
+
+example :
+    ((exBcastOps.foldl (Sched2B.step exBcastCfg exGraph) (Sched2B.init exGraph)).b.store =
+      [(⟨"2", "a", ["environment", "FOO"]⟩, "for-2")]) ∧
+    ((Sched2B.step exBcastCfg exGraph (exBcastOps.foldl (Sched2B.step exBcastCfg exGraph) (Sched2B.init exGraph))
+      (.sched .restart)).b.store = [(⟨"2", "a", ["environment", "FOO"]⟩, "for-2")]) := by
+  refine ⟨by decide, by decide⟩
 
 /-! ### the continued run -/
 
